@@ -69,11 +69,41 @@ def rule_partition(report, prog):
                      key(f.qname, 'each cycle sends the fragment it sliced'), f.loc(w), 'fragment is not sent in the cycle it was sliced')
 
 
+def _stale_pdus(report, f, cfg):
+    """A PDU built from the current packet number is sent before the packet number changes: between `v = F(self.pni, ...)` and a
+    use of v as a call argument no assignment to self.pni may happen (hoisting the construction out of a loop sends stale numbers)."""
+    builds = {}
+    for st in walk_no_nested(f.node):
+        if isinstance(st, ast.Assign) and len(st.targets) == 1 and isinstance(st.targets[0], ast.Name) and isinstance(st.value, ast.Call) and \
+                any(norm(a) == 'self.pni' for a in st.value.args):
+            builds.setdefault(st.targets[0].id, []).append(cfg.node_of(st))
+    pni_sets = [cfg.node_of(st) for st in walk_no_nested(f.node) if isinstance(st, ast.Assign) and norm(st.targets[0]) == 'self.pni']
+    n = 0
+    for v, bnodes in sorted(builds.items()):
+        uses = []
+        for c in walk_no_nested(f.node):
+            if isinstance(c, ast.Call) and any(isinstance(a, ast.Name) and a.id == v for a in c.args) and norm(c.func).startswith('self.send_'):
+                uses.append(cfg_node_for(cfg, c))
+        for b in bnodes:
+            n += 1
+            bad = None
+            for p_ in pni_sets:
+                if p_ in cfg.reachable(b, avoid_nodes=[x for x in bnodes if x is not b]):
+                    for u in uses:
+                        if u is not None and u in cfg.reachable(p_, avoid_nodes=bnodes):
+                            bad = (p_, u)
+            report.check(bad is None, 'C04-R2', key(f.qname, 'PDU carries the packet number that is current when it is sent', b.ast), f.loc(b.ast),
+                         '`%s` is built before `%s` and sent afterwards (`%s`): the PDU carries a stale packet number'
+                         % (norm(b.ast), norm(bad[0].ast) if bad else '', head(bad[1].ast)[:60] if bad else ''))
+    return n
+
+
 def rule_pni(report, prog):
     n = 0
     for role in ('Initiator', 'Target'):
         f = prog.func('%s.%s.exchange' % (DEP, role))
         cfg = cfg_of(f)
+        _stale_pdus(report, f, cfg)
         peer = 'res.pfb.pni' if role == 'Initiator' else 'req.pfb.pni'
         for st in walk_no_nested(f.node):
             if isinstance(st, ast.Assign) and norm(st.targets[0]) == 'self.pni' and not isinstance(st.value, ast.Constant):
